@@ -1,3 +1,4 @@
 import Cgm.Lemmas.AuditCmd
 import Cgm.E2E.C16
+import Cgm.E2E.C16b
 #audit_namespace Cg.E2E.C16
